@@ -388,7 +388,12 @@ pub fn first_order_violation<'a>(paths: impl Iterator<Item = &'a str>) -> Option
 /// `opens` tells whether Conserve is able to open a band at all (head decodes and is
 /// supported); bands that exist but do not open contribute nothing and are passed over.
 pub fn ref_stitch(view: &ArchiveView, band: u32) -> Vec<(u32, DEntry)> {
-    let mut out: Vec<(u32, DEntry)> = Vec::new();
+    ref_stitch_hunks(view, band).into_iter().map(|(b, _, e)| (b, e)).collect()
+}
+
+/// As `ref_stitch`, also naming the hunk each entry came from: (donor band, hunk number, entry).
+pub fn ref_stitch_hunks(view: &ArchiveView, band: u32) -> Vec<(u32, u32, DEntry)> {
+    let mut out: Vec<(u32, u32, DEntry)> = Vec::new();
     let mut last: Option<String> = None;
     let mut cur = Some(band);
     while let Some(id) = cur {
@@ -408,7 +413,7 @@ pub fn ref_stitch(view: &ArchiveView, band: u32) -> Vec<(u32, DEntry)> {
                                 Some(l) => ref_cmp(l, &e.apath) == Ordering::Less,
                             };
                             if after {
-                                out.push((id, e.clone()));
+                                out.push((id, num, e.clone()));
                             }
                         }
                         // the resume point moves to the hunk's last path even if nothing of it
